@@ -1,6 +1,7 @@
 package gvc
 
 import (
+	"os"
 	"fmt"
 	"go/token"
 	"go/types"
@@ -155,6 +156,9 @@ func (u *Unit) atLoopHeader(st *State, fr *Frame, lp *loop, b, pred *ssa.BasicBl
 	}
 	c := st.visits[key] + 1
 	st.visits[key] = c
+	if os.Getenv("GVC_DEBUG_LOOPS") != "" {
+		fmt.Fprintf(os.Stderr, "loop %s#%d mode=%s n=%d c=%d spec=%v\n", FuncName(fr.fn), lp.ordinal, mode, n, c, spec != nil)
+	}
 	if c <= n {
 		return false
 	}
@@ -401,6 +405,9 @@ func (u *Unit) havocLoop(st *State, fr *Frame, lp *loop, hdr, pred *ssa.BasicBlo
 					}
 					callee := cc.StaticCallee()
 					if callee != nil {
+						if ct := u.P.ContractOf(callee); ct != nil && ct.Modifies == "nothing" {
+							continue // proved (or assumed, and then proved in its own unit) not to write
+						}
 						pk := pkgOf(callee)
 						if pk == "github.com/go-i2p/logger" || pk == "github.com/sirupsen/logrus" || pk == "github.com/samber/oops" || pk == "fmt" || pk == "errors" || pk == "strings" || pk == "strconv" {
 							continue
